@@ -86,6 +86,7 @@ type Exec struct {
 	known      map[string]bool
 	mergeBase  map[ssa.Value]Value
 	selForks   map[*ssa.Select]int
+	idleSpins  int
 	inCallback bool
 }
 
@@ -1325,7 +1326,9 @@ func (ex *Exec) runIdle(waiting ...*Chan) bool {
 		if ex.side["freezeTimers"] != nil {
 			return false
 		}
-		return ex.advanceTime()
+		// the blocked operation does not wait on a timer: only scheduled
+		// callbacks (concurrent activity) can still wake it up
+		return ex.advanceTime(true)
 	}
 	h := ex.idleHooks[0]
 	ex.idleHooks = ex.idleHooks[1:]
